@@ -1,5 +1,6 @@
-(** C13: no stranding - in the histories of list commands whose blocking pops name one key, a
-    key with a waiter never holds more elements than wake-ups are under way for it. *)
+(** C13: no stranding - in the histories of list commands (blocking pops on any number of keys,
+    clients going away at any time), a key with a waiter never holds more elements than wake-ups
+    are under way for it. *)
 From Ferrous Require Import Base.Bytes Generated Model.Resp Model.Types Model.Strings Model.Lists
   Model.Server Model.Blocking Spec.BlockingSpec Proofs.BytesFacts Proofs.StringsFacts Proofs.ServerFacts
   Proofs.BlockingFacts Proofs.BlockingCons.
@@ -116,31 +117,33 @@ Proof.
 Qed.
 
 Lemma push_reply_fact now s c dbi nm rest rep s1 :
+  NOEXPd (get_db s dbi) ->
   normal_command now s c dbi (FBulk nm :: rest) None = (rep, s1) ->
   forall n key els, rep = FInt n -> is_push_name (upper nm) = true -> rest = FBulk key :: els -> len (bulk_args els) <= n.
 Proof.
-  intros En n key els -> Hp ->. unfold is_push_name in Hp. apply orb_true_iff in Hp.
+  intros HN En n key els -> Hp ->. unfold is_push_name in Hp. apply orb_true_iff in Hp.
   destruct Hp as [Hp|Hp]; apply beq_eq in Hp.
   - destruct (h_push true (get_db s dbi) (FBulk nm :: FBulk key :: els)) as [r d'] eqn:Eh.
     assert (He : exec_db now (get_db s dbi) (upper nm) (FBulk nm :: FBulk key :: els) None = Some (r, d')) by (rewrite Hp, exec_db_lpush, Eh; reflexivity).
-    destruct (nc_via_exec_db now s c dbi nm (FBulk key :: els) None r d' ltac:(rewrite Hp; reflexivity) He) as (s2 & E1 & _).
+    destruct (nc_via_exec_db now s c dbi nm (FBulk key :: els) None r d' HN ltac:(rewrite Hp; reflexivity) He) as (s2 & E1 & _).
     rewrite E1 in En. injection En as -> _. eapply h_push_reply_ge; exact Eh.
   - destruct (h_push false (get_db s dbi) (FBulk nm :: FBulk key :: els)) as [r d'] eqn:Eh.
     assert (He : exec_db now (get_db s dbi) (upper nm) (FBulk nm :: FBulk key :: els) None = Some (r, d')) by (rewrite Hp, exec_db_rpush, Eh; reflexivity).
-    destruct (nc_via_exec_db now s c dbi nm (FBulk key :: els) None r d' ltac:(rewrite Hp; reflexivity) He) as (s2 & E1 & _).
+    destruct (nc_via_exec_db now s c dbi nm (FBulk key :: els) None r d' HN ltac:(rewrite Hp; reflexivity) He) as (s2 & E1 & _).
     rewrite E1 in En. injection En as -> _. eapply h_push_reply_ge; exact Eh.
 Qed.
 
-(** a command that is not a blocking pop, through process_normal_command *)
+(** a command that is not a blocking pop (nor EVAL), through process_normal_command *)
 Lemma bnormal_rel now s b c dbi nm rest oms rep s' b' :
-  bpop_parts (FBulk nm :: rest) = false ->
+  NOEXPd (get_db s dbi) ->
+  bpop_parts (FBulk nm :: rest) = false -> beq (upper nm) (bs "EVAL") = false ->
   bnormal now s b c dbi (FBulk nm :: rest) None oms = (rep, s', b') ->
   Rel b b' (fun db k => ecountm (db, k, None) (pushed_of dbi (FBulk nm :: rest) rep)).
 Proof.
-  intros Hb H. rewrite bpop_parts_names in Hb. apply orb_false_iff in Hb. destruct Hb as [Hb1 Hb2].
-  unfold bnormal in H. rewrite Hb1, Hb2 in H.
-  destruct (normal_command now s c dbi (FBulk nm :: rest) None) as [r s1] eqn:En. injection H as <- <- <-.
-  apply nap_rel. eapply push_reply_fact; exact En.
+  intros HN Hb Hev H. rewrite bpop_parts_names in Hb. apply orb_false_iff in Hb. destruct Hb as [Hb1 Hb2].
+  unfold bnormal in H. rewrite Hb1, Hb2, Hev in H.
+  destruct (normal_command now s c dbi (FBulk nm :: rest) None) as [r s1] eqn:En. cbv zeta in H. injection H as <- <- <-.
+  apply nap_rel. eapply push_reply_fact; eauto.
 Qed.
 Lemma bnormal_badhead_rel now s b c dbi parts oms rep s' b' :
   bnormal now s b c dbi parts None oms = (rep, s', b') ->
@@ -150,6 +153,11 @@ Proof.
   intros H Hs. destruct (bnormal_badhead _ _ _ _ _ _ _ _ _ _ H Hs) as [_ ->].
   eapply Rel_weaken; [apply Rel_refl|]. intros db k. unfold pushed_of. destruct parts as [|p ?]; [rewrite ecount_nil; lia|].
   destruct p; try (rewrite ecount_nil; lia). contradiction.
+Qed.
+Lemma list_cmd_not_eval x : bmem x list_cmds = true -> beq x (bs "EVAL") = false.
+Proof.
+  intros H. apply bmem_In in H. unfold list_cmds in H. cbn [In] in H.
+  repeat (destruct H as [H|H]; [subst x; reflexivity|]). contradiction.
 Qed.
 
 (** a blocking pop with the id 0 of EXEC never touches the blocking manager *)
@@ -163,80 +171,139 @@ Proof.
   destruct (fast_path left (get_db s dbi) l) as [[r|] d']; injection H as _ _ <-; reflexivity.
 Qed.
 (** the queue of an EXEC *)
-Lemma bexec_queue_rel now dbi : forall q s b acc reps s' b',
-  bexec_queue now s b dbi q acc = (reps, s', b') ->
+Lemma bexec_queue_rel now c : forall q s b dbi acc reps s' b',
+  cinv s -> c <> 0 -> (exists cn, zlookup c (s_conns s) = Some cn /\ c_db cn = dbi) -> forallb list_parts q = true ->
+  bexec_queue now s b c dbi q acc = (reps, s', b') ->
   exists reps1, reps = rev acc ++ reps1 /\
-    Rel b b' (fun db k => ecountm (db, k, None) (zip_effects (pushed_of dbi) q reps1)).
+    Rel b b' (fun db k => ecountm (db, k, None) (zip_effects pushed_of dbi q reps1)).
 Proof.
-  induction q as [|parts q IH]; intros s b acc reps s' b' H; cbn [bexec_queue] in H.
+  induction q as [|parts q IH]; intros s b dbi acc reps s' b' CI Hc0 Hex Hq H; cbn [bexec_queue] in H.
   - injection H as <- _ <-. exists []. rewrite app_nil_r. split; [reflexivity|]. apply Rel_refl.
-  - destruct (bnormal now s b 0 dbi parts None None) as [[rep s1] b1] eqn:En.
-    assert (R1 : Rel b b1 (fun db k => ecountm (db, k, None) (pushed_of dbi parts rep))).
-    { destruct parts as [|p rest]; [eapply bnormal_badhead_rel; [exact En|exact I]|].
-      destruct p; try (eapply bnormal_badhead_rel; [exact En|exact I]).
-      destruct (bpop_parts (FBulk b0 :: rest)) eqn:Hp; [|eapply bnormal_rel; eauto].
-      assert (b1 = b).
-      { unfold bnormal in En. rewrite bpop_parts_names in Hp. destruct (beq (upper b0) (bs "BLPOP")); [eapply h_bpop_zero; exact En|].
-        cbn [orb] in Hp. rewrite Hp in En. eapply h_bpop_zero; exact En. }
-      subst b1. eapply Rel_weaken; [apply Rel_refl|]. intros db k. rewrite pushed_of_nil; [rewrite ecount_nil; lia|].
-      rewrite bpop_parts_names in Hp. apply orb_true_iff in Hp. destruct Hp as [Hp|Hp]; apply beq_eq in Hp; rewrite Hp; reflexivity. }
-    destruct (IH _ _ _ _ _ _ H) as (reps1 & E & R2).
-    exists (rep :: reps1). cbn [rev] in E. rewrite <- app_assoc in E. split; [exact E|].
-    cbn [zip_effects]. eapply Rel_weaken; [eapply Rel_trans; eauto|]. intros db k. cbn beta. rewrite ecount_app. lia.
+  - cbn [forallb] in Hq. apply andb_true_iff in Hq. destruct Hq as [Hp Hq].
+    destruct Hex as (cn & Hcn & Hdb). assert (Hr : 0 <= dbi < 16) by (rewrite <- Hdb; eapply ci_db; eauto).
+    destruct (beq (queued_name parts) (bs "SELECT")) eqn:Esel.
+    + rewrite (bnormal_select _ _ _ _ _ _ _ _ Esel) in H.
+      destruct parts as [|p rest]; [discriminate|]. destruct p; try discriminate.
+      pose proof Hp as Hp'. unfold list_parts, list_frame in Hp'. apply andb_true_iff in Hp'. destruct Hp' as [Hin Ht]. apply beq_eq in Ht.
+      cbn [queued_name] in Esel. rewrite Ht in Esel.
+      assert (NP : beq (upper b0) (bs "PING") = false) by (apply beq_eq in Esel; rewrite Esel; reflexivity).
+      assert (NE : beq (upper b0) (bs "ECHO") = false) by (apply beq_eq in Esel; rewrite Esel; reflexivity).
+      destruct (normal_command now s c dbi (FBulk b0 :: rest) None) as [rep s1] eqn:En.
+      destruct (nc_select _ _ _ _ _ _ _ _ _ (proj2 (ci_all s CI dbi)) NP NE Esel En) as (E1 & E2 & E3 & E4).
+      destruct (E4 cn Hcn) as (cn1 & Hcn1 & Hdb1). rewrite Hcn1 in H.
+      assert (CI1 : cinv s1) by (eapply cinv_after_select; eauto).
+      destruct (IH _ _ _ _ _ _ _ CI1 Hc0 (ex_intro _ cn1 (conj Hcn1 eq_refl)) Hq H) as (reps1 & E & R2).
+      exists (rep :: reps1). cbn [rev] in E. rewrite <- app_assoc in E. split; [exact E|].
+      cbn [zip_effects]. rewrite Hdb in Hdb1. rewrite <- Hdb1.
+      rewrite (pushed_of_nil dbi b0 rest rep) by (apply beq_eq in Esel; rewrite Esel; reflexivity). exact R2.
+    + destruct (bnormal now s b 0 dbi parts None None) as [[rep s1] b1] eqn:En.
+      assert (CI1 : cinv s1).
+      { destruct parts as [|p rest].
+        - destruct (bnormal_badhead _ _ _ _ _ _ _ _ _ _ En I) as [-> _]. exact CI.
+        - destruct p; try (destruct (bnormal_badhead _ _ _ _ _ _ _ _ _ _ En I) as [-> _]; exact CI).
+          pose proof Hp as Hp'. unfold list_parts, list_frame in Hp'. apply andb_true_iff in Hp'. destruct Hp' as [Hp' _].
+          eapply bnormal_any; eauto. }
+      assert (R1 : Rel b b1 (fun db k => ecountm (db, k, None) (pushed_of dbi parts rep))).
+      { destruct parts as [|p rest]; [eapply bnormal_badhead_rel; [exact En|exact I]|].
+        destruct p; try (eapply bnormal_badhead_rel; [exact En|exact I]).
+        pose proof Hp as Hp'. unfold list_parts, list_frame in Hp'. apply andb_true_iff in Hp'. destruct Hp' as [Hin _].
+        destruct (bpop_parts (FBulk b0 :: rest)) eqn:Hbp;
+          [|eapply bnormal_rel; eauto; [exact (proj2 (ci_all s CI dbi))|apply list_cmd_not_eval; exact Hin]].
+        assert (b1 = b).
+        { unfold bnormal in En. rewrite bpop_parts_names in Hbp. destruct (beq (upper b0) (bs "BLPOP")); [eapply h_bpop_zero; exact En|].
+          cbn [orb] in Hbp. rewrite Hbp in En. eapply h_bpop_zero; exact En. }
+        subst b1. eapply Rel_weaken; [apply Rel_refl|]. intros db k. rewrite pushed_of_nil; [rewrite ecount_nil; lia|].
+        rewrite bpop_parts_names in Hbp. apply orb_true_iff in Hbp. destruct Hbp as [Hbp|Hbp]; apply beq_eq in Hbp; rewrite Hbp; reflexivity. }
+      assert (Hex1 : exists cn1, zlookup c (s_conns s1) = Some cn1 /\ c_db cn1 = dbi).
+      { exists cn. rewrite (bnormal_conns0 _ _ _ _ _ _ _ _ _ _ En c Hc0). split; assumption. }
+      destruct (IH _ _ _ _ _ _ _ CI1 Hc0 Hex1 Hq H) as (reps1 & E & R2).
+      exists (rep :: reps1). cbn [rev] in E. rewrite <- app_assoc in E. split; [exact E|].
+      cbn [zip_effects]. rewrite (next_db_other dbi parts rep Esel Hp).
+      eapply Rel_weaken; [eapply Rel_trans; eauto|]. intros db k. cbn beta. rewrite ecount_app. lia.
 Qed.
 
-(** ================= a blocking pop on one key ================= *)
+(** ================= a blocking pop: every key it names is empty when it blocks ================= *)
 Lemma pop_nil_empty left d k : ALLd d ->
   (match fst (on_key d k (e_pop left)) with FBulk _ | FError _ => False | _ => True end) ->
   lst (snd (on_key d k (e_pop left))) k = [].
 Proof.
-  intros HA Hr. destruct (lview d k) as [l|] eqn:El; [|exfalso; exact (HA k El)].
+  intros HA Hr. destruct (lview d k) as [l|] eqn:El; [|exfalso; exact (proj1 HA k El)].
   pose proof (pop_view left d k l El) as Hp. destruct (if left then l else rev l) as [|v t]; destruct Hp as [Hp1 Hp2].
   - apply lst_view. exact Hp2.
   - rewrite Hp1 in Hr. contradiction.
 Qed.
-
-Lemma block_case s dbi d1 k0 reg c left dl :
-  cinv s -> 0 <= dbi < 16 -> lst d1 k0 = [] ->
-  forall db k, reg_get (register reg dbi c [k0] left dl) (db, k) <> [] ->
-  reg_get reg (db, k) <> [] \/ len (list_at (set_db s dbi d1) db k) = 0.
+Lemma len_zero_nil (l : list bytes) : len l = 0 -> l = [].
+Proof. destruct l; [reflexivity|]. unfold len. cbn [length]. lia. Qed.
+(** a pop that finds nothing changes no list *)
+Lemma pop_nil_same left d k : ALLd d ->
+  (match fst (on_key d k (e_pop left)) with FBulk _ => False | _ => True end) ->
+  forall k', len (lst (snd (on_key d k (e_pop left))) k') = len (lst d k').
 Proof.
-  intros CI Hr Hnil db k Hq.
-  destruct (reg_get_register dbi c left dl [k0] reg (db, k)) as [n [Hn Hiff]]. rewrite Hn in Hq.
-  destruct (reg_get reg (db, k)) as [|w0 q0] eqn:Eq0; [|left; discriminate]. right.
-  assert (Hnz : n <> O) by (destruct n; [cbn in Hq; congruence|discriminate]).
-  apply Hiff in Hnz. cbn [fst snd bmem] in Hnz. destruct Hnz as [-> Hk]. rewrite orb_false_r in Hk. apply beq_eq in Hk. subst k.
-  rewrite list_at_lst. destruct (get_db_after_set s (set_db s dbi d1) dbi d1 (ci_len s CI) Hr eq_refl) as (G1 & _).
-  rewrite G1, Hnil. reflexivity.
+  intros HA Hr k'. pose proof (on_key_pop_delta left d k 0 HA) as Hp. cbv zeta in Hp. destruct Hp as (_ & _ & P3).
+  specialize (P3 k' None). rewrite !occm_none in P3. destruct (fst (on_key d k (e_pop left))); try (rewrite ecount_nil in P3; lia). contradiction.
+Qed.
+Lemma fast_path_none left : forall keys d d', ALLd d -> fast_path left d keys = (None, d') ->
+  (forall k', len (lst d' k') = len (lst d k')) /\ forall k, bmem k keys = true -> lst d' k = [].
+Proof.
+  induction keys as [|k0 keys IH]; intros d d' HA H; cbn [fast_path] in H.
+  - injection H as <-. split; [reflexivity|intros k Hk; discriminate].
+  - pose proof (on_key_pop_delta left d k0 0 HA) as Hp. cbv zeta in Hp.
+    pose proof (pop_nil_empty left d k0 HA) as Hnil. pose proof (pop_nil_same left d k0 HA) as Hsame.
+    destruct (on_key d k0 (e_pop left)) as [r d1]. cbn [fst snd] in *. destruct Hp as (P1 & P2 & _).
+    destruct r; try contradiction; try discriminate.
+    destruct (IH d1 d' P1 H) as (I1 & I2). split.
+    + intros k'. rewrite I1. apply Hsame. exact I.
+    + intros k Hk. cbn [bmem] in Hk. apply orb_true_iff in Hk. destruct Hk as [Hk|Hk]; [|apply I2; exact Hk].
+      apply beq_eq in Hk. subst k. apply len_zero_nil. rewrite I1, (Hnil I). reflexivity.
+Qed.
+Lemma recheck_none left : forall keys d d', ALLd d -> recheck left d keys = (None, d') ->
+  (forall k', len (lst d' k') = len (lst d k')) /\ forall k, bmem k keys = true -> lst d' k = [].
+Proof.
+  induction keys as [|k0 keys IH]; intros d d' HA H; cbn [recheck] in H.
+  - injection H as <-. split; [reflexivity|intros k Hk; discriminate].
+  - pose proof (on_key_pop_delta left d k0 0 HA) as Hp. cbv zeta in Hp.
+    pose proof (pop_nil_empty left d k0 HA) as Hnil. pose proof (pop_nil_same left d k0 HA) as Hsame.
+    destruct (on_key d k0 (e_pop left)) as [r d1]. cbn [fst snd] in *. destruct Hp as (P1 & P2 & _).
+    destruct r; try contradiction; try discriminate.
+    destruct (IH d1 d' P1 H) as (I1 & I2). split.
+    + intros k'. rewrite I1. apply Hsame. exact I.
+    + intros k Hk. cbn [bmem] in Hk. apply orb_true_iff in Hk. destruct Hk as [Hk|Hk]; [|apply I2; exact Hk].
+      apply beq_eq in Hk. subst k. apply len_zero_nil. rewrite I1, (Hnil I). reflexivity.
+Qed.
+Lemma list_at_set_db s dbi d1 db k : cinv s -> 0 <= dbi < 16 -> 0 <= db ->
+  list_at (set_db s dbi d1) db k = if db =? dbi then lst d1 k else list_at s db k.
+Proof.
+  intros CI Hr Hd. rewrite !list_at_lst. destruct (get_db_after_set s (set_db s dbi d1) dbi d1 (ci_len s CI) Hr eq_refl) as (G1 & G2 & _).
+  destruct (db =? dbi) eqn:E; [apply Z.eqb_eq in E; subst; rewrite G1; reflexivity|]. rewrite G2 by lia. reflexivity.
 Qed.
 
-Lemma h_bpop_strand left now s b c dbi nm rest oms rep s' b' :
-  cinv s -> 0 <= dbi < 16 -> len (FBulk nm :: rest) = 3 ->
-  h_bpop left now s b c dbi (FBulk nm :: rest) oms = (rep, s', b') ->
+Lemma h_bpop_strand left now s b c dbi parts oms rep s' b' :
+  cinv s -> 0 <= dbi < 16 ->
+  h_bpop left now s b c dbi parts oms = (rep, s', b') ->
   b_wake b' = b_wake b /\
-  forall db k, reg_get (b_reg b') (db, k) <> [] -> reg_get (b_reg b) (db, k) <> [] \/ len (list_at s' db k) = 0.
+  forall db k, 0 <= db -> reg_get (b_reg b') (db, k) <> [] -> reg_get (b_reg b) (db, k) <> [] \/ len (list_at s' db k) = 0.
 Proof.
-  intros CI Hr Hlen H. unfold h_bpop in H.
+  intros CI Hr H. unfold h_bpop in H.
   assert (Same : forall r0 s0, (r0, s0, b) = (rep, s', b') ->
-            b_wake b' = b_wake b /\ forall db k, reg_get (b_reg b') (db, k) <> [] -> reg_get (b_reg b) (db, k) <> [] \/ len (list_at s' db k) = 0).
-  { intros r0 s0 E. injection E as _ _ <-. split; [reflexivity|]. intros db k Hq. left. exact Hq. }
-  destruct (len (FBulk nm :: rest) <? 3); [eapply Same; exact H|].
+            b_wake b' = b_wake b /\ forall db k, 0 <= db -> reg_get (b_reg b') (db, k) <> [] -> reg_get (b_reg b) (db, k) <> [] \/ len (list_at s' db k) = 0).
+  { intros r0 s0 E. injection E as _ _ <-. split; [reflexivity|]. intros db k _ Hq. left. exact Hq. }
+  destruct (len parts <? 3); [eapply Same; exact H|].
   destruct (timeout_of _ oms) as [tmo|]; [|eapply Same; exact H].
-  destruct rest as [|kf [|tf [|? ?]]]; try (unfold len in Hlen; cbn [length] in Hlen; lia).
-  cbn [tl removelast] in H. destruct kf as [| | |k0| | | | | | | | |]; cbn [all_bulks] in H; try (eapply Same; exact H).
-  unfold fast_path in H.
-  pose proof (pop_nil_empty left (get_db s dbi) k0 (ci_all s CI dbi)) as Hnil.
-  destruct (on_key (get_db s dbi) k0 (e_pop left)) as [r d1]. cbn [fst snd] in Hnil.
+  destruct (all_bulks (removelast (tl parts))) as [keys|]; [|eapply Same; exact H].
+  destruct (fast_path left (get_db s dbi) keys) as [[r|] d1] eqn:Ef; [eapply Same; exact H|].
+  destruct (c =? 0); [eapply Same; exact H|].
+  destruct (fast_path_none left keys _ _ (ci_all s CI dbi) Ef) as (_ & Hnil).
   assert (Blk : forall bx, b_wake bx = b_wake b ->
-            b_reg bx = register (b_reg b) dbi c [k0] left (option_map (fun ms => now + ms) tmo) ->
-            lst d1 k0 = [] ->
+            b_reg bx = register (b_reg b) dbi c keys left (option_map (fun ms => now + ms) tmo) (b_seq b) ->
             (FNoResponse, set_db s dbi d1, bx) = (rep, s', b') ->
-            b_wake b' = b_wake b /\ forall db k, reg_get (b_reg b') (db, k) <> [] -> reg_get (b_reg b) (db, k) <> [] \/ len (list_at s' db k) = 0).
-  { intros bx W1 W2 W3 E. injection E as _ <- <-. split; [exact W1|]. intros db k Hq. rewrite W2 in Hq.
-    eapply block_case; eauto. }
-  destruct r; try (eapply Same; exact H);
-    (destruct (c =? 0); [eapply Same; exact H|]);
-    (destruct (zlookup c (s_conns s)); (eapply Blk; [| |apply Hnil; exact I|exact H]; reflexivity)).
+            b_wake b' = b_wake b /\ forall db k, 0 <= db -> reg_get (b_reg b') (db, k) <> [] -> reg_get (b_reg b) (db, k) <> [] \/ len (list_at s' db k) = 0).
+  { intros bx W1 W2 E. injection E as _ <- <-. split; [exact W1|]. intros db k Hd Hq. rewrite W2 in Hq.
+    destruct (reg_get_register dbi c left (option_map (fun ms => now + ms) tmo) (b_seq b) keys (b_reg b) (db, k)) as [n [Hn Hiff]]. rewrite Hn in Hq.
+    destruct (reg_get (b_reg b) (db, k)) as [|w0 q0] eqn:Eq0; [|left; discriminate]. right.
+    assert (Hnz : n <> O) by (destruct n; [cbn in Hq; congruence|discriminate]).
+    apply Hiff in Hnz. cbn [fst snd] in Hnz. destruct Hnz as [-> Hk].
+    rewrite (list_at_set_db s dbi d1 dbi k CI Hr Hd), Z.eqb_refl, (Hnil k Hk). reflexivity. }
+  destruct (zlookup c (s_conns s)); (eapply Blk; [| |exact H]; reflexivity).
 Qed.
 
 (** ================= the three ways a list frame touches the blocking manager ================= *)
@@ -245,8 +312,8 @@ Lemma bpf_shape now s b c cn f oms rep s' b' :
   bprocess_frame now s b c f None oms = (rep, s', b') ->
   (b' = b /\ frame_effect pushed_of s c f rep = [])
   \/ (exists reps, rep = FArray reps /\
-        bexec_queue now (set_conn s c (clear_tx cn)) b (c_db cn) (c_queue cn) [] = (reps, s', b') /\
-        frame_effect pushed_of s c f rep = zip_effects (pushed_of (c_db cn)) (c_queue cn) reps)
+        bexec_queue now (set_conn s c (clear_tx cn)) b c (c_db cn) (c_queue cn) [] = (reps, s', b') /\
+        frame_effect pushed_of s c f rep = zip_effects pushed_of (c_db cn) (c_queue cn) reps)
   \/ (exists nm rest, f = FArray (FBulk nm :: rest) /\
         bnormal now s b c (c_db cn) (FBulk nm :: rest) None oms = (rep, s', b') /\
         frame_effect pushed_of s c f rep = pushed_of (c_db cn) (FBulk nm :: rest) rep).
@@ -265,6 +332,11 @@ Proof.
   rewrite Hc in H. rewrite Htrim in H. rewrite (ci_pw s CI) in H. cbn [andb] in H.
   destruct (list_cmd_not_other _ Hin) as (NW & NU & NA).
   unfold frame_effect. rewrite Hc.
+  destruct (c_intx cn && negb (mem_name (upper nm) tx_not_queued)) eqn:Eq.
+  { left. apply andb_true_iff in Eq. destruct Eq as [Ei Eq]. rewrite Ei.
+    assert (NE : beq (upper nm) (bs "EXEC") = false).
+    { destruct (beq (upper nm) (bs "EXEC")) eqn:EE; [|reflexivity]. apply beq_eq in EE. rewrite EE in Eq. vm_compute in Eq. discriminate. }
+    rewrite NE. destruct (process_frame now s c _ None). injection H as _ _ <-. split; reflexivity. }
   destruct (beq (upper nm) (bs "MULTI")) eqn:EM.
   { left. assert (NE : beq (upper nm) (bs "EXEC") = false) by (apply beq_eq in EM; rewrite EM; reflexivity).
     assert (NP : is_push_name (upper nm) = false) by (apply beq_eq in EM; rewrite EM; reflexivity).
@@ -274,40 +346,18 @@ Proof.
   { assert (NP : is_push_name (upper nm) = false) by (apply beq_eq in EE; rewrite EE; reflexivity).
     unfold bh_exec in H. cbv zeta in H. destruct (c_intx cn) eqn:Ei; cbn [negb] in H.
     2:{ left. injection H as <- _ <-. split; [reflexivity|apply pushed_of_nil; exact NP]. }
-    destruct (existsb _ (c_watched cn)); [left; injection H as <- _ <-; split; reflexivity|].
-    right. left. revert H. destruct (bexec_queue _ _ _ _ _ _) as [[reps s2] b2] eqn:Eq. intros H. injection H as <- <- <-.
-    exists reps. split; [reflexivity|]. split; [first [exact Eq|reflexivity]|reflexivity]. }
+    destruct (watch_violated now s cn); [left; injection H as <- _ <-; split; reflexivity|].
+    right. left. revert H. destruct (bexec_queue _ _ _ _ _ _ _) as [[reps s2] b2] eqn:Eq2. intros H. injection H as <- <- <-.
+    exists reps. split; [reflexivity|]. split; [first [exact Eq2|reflexivity]|reflexivity]. }
   destruct (beq (upper nm) (bs "DISCARD")) eqn:ED.
   { left. assert (NP : is_push_name (upper nm) = false) by (apply beq_eq in ED; rewrite ED; reflexivity).
     rewrite (pushed_of_nil _ nm rest rep NP). cbn [orb] in H. destruct (process_frame now s c _ None). injection H as _ _ <-.
     split; [reflexivity|destruct (c_intx cn); reflexivity]. }
   rewrite NW, NU, NA in H. cbn [orb] in H.
-  destruct (c_intx cn && negb (mem_name (upper nm) tx_not_queued)) eqn:Eq.
-  { left. apply andb_true_iff in Eq. destruct Eq as [Ei _]. rewrite Ei.
-    destruct (process_frame now s c _ None). injection H as _ _ <-. split; reflexivity. }
   assert (Ei : c_intx cn = false).
   { destruct (c_intx cn); [|reflexivity]. cbn [andb] in Eq. apply negb_false_iff in Eq.
     unfold mem_name, tx_not_queued in Eq. cbn [bmem] in Eq. rewrite EM, EE, ED, NW, NU in Eq. discriminate. }
   rewrite Ei. right. right. exists nm, rest. split; [reflexivity|]. split; [exact H|reflexivity].
-Qed.
-
-(** ================= every Blocked connection waits on one key ================= *)
-Definition SK (b : blocking) : Prop := forall c st, zlookup c (b_blk b) = Some st -> exists k, bl_keys st = [k].
-Lemma h_bpop_keys left now s b c dbi nm rest oms rep s' b' :
-  len (FBulk nm :: rest) = 3 -> h_bpop left now s b c dbi (FBulk nm :: rest) oms = (rep, s', b') ->
-  forall c' st', zlookup c' (b_blk b') = Some st' -> zlookup c' (b_blk b) = Some st' \/ exists k, bl_keys st' = [k].
-Proof.
-  intros Hlen H. unfold h_bpop in H.
-  destruct (len (FBulk nm :: rest) <? 3); [injection H as _ _ <-; auto|].
-  destruct (timeout_of _ oms) as [tmo|]; [|injection H as _ _ <-; auto].
-  destruct rest as [|kf [|tf [|? ?]]]; try (unfold len in Hlen; cbn [length] in Hlen; lia).
-  cbn [tl removelast] in H. destruct kf as [| | |k0| | | | | | | | |]; cbn [all_bulks] in H; try (injection H as _ _ <-; auto).
-  destruct (fast_path left (get_db s dbi) [k0]) as [[r|] d1]; [injection H as _ _ <-; auto|].
-  destruct (c =? 0); [injection H as _ _ <-; auto|].
-  destruct (zlookup c (s_conns s)); injection H as _ _ <-; [|auto].
-  intros c' st' Hl. cbn [set_blocked with_blk with_reg b_blk] in Hl. destruct (Z.eq_dec c' c) as [->|Hne].
-  - rewrite zlookup_zset_same in Hl. injection Hl as <-. right. exists k0. reflexivity.
-  - rewrite zlookup_zset_other in Hl by exact Hne. left. exact Hl.
 Qed.
 
 Lemma len_none_delta s s' add rem db k : delta s s' add rem -> 0 <= db ->
@@ -317,124 +367,167 @@ Proof. intros D Hd. specialize (D db k None Hd). rewrite !occm_none in D. exact 
 (** ================= one frame ================= *)
 Lemma frame_strand now s b c cn f oms rep s' b' :
   cinv s -> agree b -> zlookup 0 (s_conns s) = None ->
-  zlookup c (s_conns s) = Some cn -> zlookup c (b_blk b) = None ->
-  list_frame f = true -> single_key f = true ->
-  SK b -> STRW s (b_reg b) (b_wake b) ->
+  zlookup c (s_conns s) = Some cn -> zlookup c (b_blk b) = None -> wakes_for c (b_wake b) = [] ->
+  list_frame f = true ->
+  STRW s (b_reg b) (b_wake b) ->
   bprocess_frame now s b c f None oms = (rep, s', b') ->
-  SK b' /\ STRW s' (b_reg b') (b_wake b').
+  STRW s' (b_reg b') (b_wake b').
 Proof.
-  intros CI HA H0 Hc Hnb Hl Hsk HSK HST E.
-  destruct (bprocess_frame_delta _ _ _ _ _ _ _ _ _ _ CI Hc Hl E) as (CI' & D).
+  intros CI HA H0 Hc Hnb Hnw Hl HST E.
+  assert (Hc0 : c <> 0) by (intros E0; subst c; congruence).
+  destruct (bprocess_frame_delta _ _ _ _ _ _ _ _ _ _ CI Hc0 Hc Hl E) as (CI' & D).
   destruct (bpf_shape _ _ _ _ _ _ _ _ _ _ CI Hc Hl E) as [[-> Eff]|[(reps & -> & Eq & Eff)|(nm & rest & -> & En & Eff)]].
   - (* nothing for the blocking manager *)
-    split; [exact HSK|]. intros db k Hd Hq. pose proof (len_none_delta _ _ _ _ db k D Hd) as L. rewrite Eff, ecount_nil in L.
+    intros db k Hd Hq. pose proof (len_none_delta _ _ _ _ db k D Hd) as L. rewrite Eff, ecount_nil in L.
     pose proof (ecount_nonneg (db, k, None) (frame_effect returned_of s c f rep)). specialize (HST db k Hd Hq). lia.
   - (* EXEC *)
-    destruct (bexec_queue_inv _ _ _ _ _ _ _ _ _ HA Eq) as (_ & _ & _ & _ & Hblk).
-    destruct (bexec_queue_rel _ _ _ _ _ _ _ _ _ Eq) as (reps1 & E1 & R). cbn [rev app] in E1. subst reps1.
-    split; [intros c' st' Hl'; rewrite Hblk in Hl'; eapply HSK; exact Hl'|].
+    assert (CI1 : cinv (set_conn s c (clear_tx cn))) by (eapply cinv_set_conn; eauto; reflexivity).
+    assert (Hex : exists cn1, zlookup c (s_conns (set_conn s c (clear_tx cn))) = Some cn1 /\ c_db cn1 = c_db cn).
+    { exists (clear_tx cn). cbn [set_conn s_conns]. rewrite zlookup_zset_same. split; reflexivity. }
+    destruct (bexec_queue_rel _ _ _ _ _ _ _ _ _ _ CI1 Hc0 Hex (ci_q s CI c cn Hc) Eq) as (reps1 & E1 & R). cbn [rev app] in E1. subst reps1.
     intros db k Hd Hq. destruct (R db k Hq) as [G1 G2]. pose proof (len_none_delta _ _ _ _ db k D Hd) as L. rewrite Eff in L.
     pose proof (ecount_nonneg (db, k, None) (frame_effect returned_of s c f (FArray reps))). specialize (HST db k Hd G1). lia.
   - (* process_normal_command *)
+    cbn [list_frame] in Hl. apply andb_true_iff in Hl. destruct Hl as [Hin _].
     destruct (bpop_parts (FBulk nm :: rest)) eqn:Hb.
-    + (* a blocking pop on one key *)
-      cbn [single_key] in Hsk. rewrite Hb in Hsk. apply Z.eqb_eq in Hsk.
+    + (* a blocking pop: it blocks only when every key it names is empty *)
       assert (Hpn : pushed_of (c_db cn) (FBulk nm :: rest) rep = []).
       { apply pushed_of_nil. rewrite bpop_parts_names in Hb. apply orb_true_iff in Hb. destruct Hb as [Hb|Hb]; apply beq_eq in Hb; rewrite Hb; reflexivity. }
-      assert (Hh : exists left, h_bpop left now s b c (c_db cn) (FBulk nm :: rest) oms = (rep, s', b')).
+      destruct (cinv_lazy now s (c_db cn) (upper nm) (FBulk nm :: rest) CI) as [CI1 Edbs].
+      assert (Hh : exists left, h_bpop left now (lazy_expire now s (c_db cn) (upper nm) (FBulk nm :: rest)) b c (c_db cn) (FBulk nm :: rest) oms = (rep, s', b')).
       { unfold bnormal in En. rewrite bpop_parts_names in Hb. destruct (beq (upper nm) (bs "BLPOP")); [exists true; exact En|].
         cbn [orb] in Hb. rewrite Hb in En. exists false. exact En. }
       destruct Hh as [left Hh].
-      destruct (h_bpop_strand _ _ _ _ _ _ _ _ _ _ _ _ CI (ci_db s CI c cn Hc) Hsk Hh) as [W1 W2].
-      split.
-      * intros c' st' Hl'. destruct (h_bpop_keys _ _ _ _ _ _ _ _ _ _ _ _ Hsk Hh c' st' Hl') as [Ho|Ho]; [eapply HSK; exact Ho|exact Ho].
-      * intros db k Hd Hq. rewrite W1. destruct (W2 db k Hq) as [G|G].
-        -- pose proof (len_none_delta _ _ _ _ db k D Hd) as L. rewrite Eff, Hpn, ecount_nil in L.
-           pose proof (ecount_nonneg (db, k, None) (frame_effect returned_of s c (FArray (FBulk nm :: rest)) rep)). specialize (HST db k Hd G). lia.
-        -- pose proof (wcount_nonneg db k (b_wake b)). lia.
+      destruct (h_bpop_strand _ _ _ _ _ _ _ _ _ _ _ CI1 (ci_db s CI c cn Hc) Hh) as [W1 W2].
+      intros db k Hd Hq. rewrite W1. destruct (W2 db k Hd Hq) as [G|G].
+      * pose proof (len_none_delta _ _ _ _ db k D Hd) as L. rewrite Eff, Hpn, ecount_nil in L.
+        pose proof (ecount_nonneg (db, k, None) (frame_effect returned_of s c (FArray (FBulk nm :: rest)) rep)). specialize (HST db k Hd G). lia.
+      * pose proof (wcount_nonneg db k (b_wake b)). lia.
     + (* anything else: a push notifies *)
-      assert (Hg' : bpop_parts (FBulk nm :: rest) = true -> c <> 0 -> zlookup c (b_blk b) = None /\ exists cn0, zlookup c (s_conns s) = Some cn0) by (intros; congruence).
-      destruct (bnormal_inv _ _ _ _ _ _ _ _ _ _ _ HA Hg' En) as (_ & _ & _ & _ & Hblk). rewrite Hb in Hblk.
-      pose proof (bnormal_rel _ _ _ _ _ _ _ _ _ _ _ Hb En) as R.
-      split; [intros c' st' Hl'; rewrite Hblk in Hl'; eapply HSK; exact Hl'|].
+      pose proof (bnormal_rel _ _ _ _ _ _ _ _ _ _ _ (proj2 (ci_all s CI (c_db cn))) Hb (list_cmd_not_eval _ Hin) En) as R.
       intros db k Hd Hq. destruct (R db k Hq) as [G1 G2]. pose proof (len_none_delta _ _ _ _ db k D Hd) as L. rewrite Eff in L.
       pose proof (ecount_nonneg (db, k, None) (frame_effect returned_of s c (FArray (FBulk nm :: rest)) rep)). specialize (HST db k Hd G1). lia.
 Qed.
 
 (** ================= wake-ups ================= *)
-Lemma ecountm_single db k db' k' v :
-  ecountm (db, k, None) [(db', k', v)] = if (db =? db') && beq k k' then 1 else 0.
-Proof. rewrite ecount_cons, ecount_nil, elem_eqb_spec. cbn [mbeq]. rewrite andb_true_r. lia. Qed.
 Lemma wmatch_sym db k u : wmatch db k u = (db =? u_db u) && beq k (u_key u).
 Proof. unfold wmatch. rewrite (Zeqb_sym (u_db u) db), (beq_sym (u_key u) k). reflexivity. Qed.
 
-Lemma wake_client_str s b u W :
-  agreeW b (u :: W) -> cinv s -> BR b -> SK b -> STRW s (b_reg b) (u :: W) ->
-  SK (snd (wake_client s b u)) /\ STRW (fst (wake_client s b u)) (b_reg (snd (wake_client s b u))) W.
+(** a wake-up: the element it finds - on its key or, failing that, on another key of the call -
+    is delivered; when there is none the call is registered again and every key it names is
+    empty; when the client has gone the element goes back and the next waiter of the key is
+    notified (0715a3b) *)
+Lemma wcount_renotified b db k db2 k2 :
+  wcount db2 k2 (renotified b db k) =
+  if (db2 =? db) && beq k2 k then (match reg_get (b_reg b) (db, k) with [] => 0 | _ => 1 end) else 0.
 Proof.
-  intros HA CI HB HSK HST.
-  destruct HA as (_ & A2 & _). destruct (A2 u (or_introl eq_refl)) as (st & U1 & U2 & U3 & _). cbn [with_wake b_blk] in U1.
-  pose proof (HB _ _ U1) as Hr. rewrite <- U2 in Hr.
-  destruct (HSK _ _ U1) as [k0 Hk0]. rewrite Hk0 in U3. cbn [bmem] in U3. rewrite orb_false_r in U3. apply beq_eq in U3.
-  unfold wake_client.
-  pose proof (on_key_pop_delta (u_left u) (get_db s (u_db u)) (u_key u) (u_db u) (ci_all s CI (u_db u))) as Hp. cbv zeta in Hp.
-  pose proof (pop_nil_empty (u_left u) (get_db s (u_db u)) (u_key u) (ci_all s CI (u_db u))) as Hnil.
-  destruct (on_key (get_db s (u_db u)) (u_key u) (e_pop (u_left u))) as [r d']. cbn [fst snd] in Hp, Hnil. destruct Hp as (P1 & P2 & P3).
-  destruct r; try contradiction; rewrite U1; cbn [fst snd].
-  - (* delivered *)
-    split.
-    + intros c' st' Hl. cbn [unblock emit with_blk b_blk] in Hl. apply zlookup_zremove_some in Hl. eapply HSK; exact Hl.
-    + cbn [unblock emit with_blk b_reg].
-      assert (D : delta s (set_db s (u_db u) d') [] [(u_db u, u_key u, b0)]).
-      { apply (delta_one_db s (set_db s (u_db u) d') (u_db u) d' [] [(u_db u, u_key u, b0)] (ci_len s CI) Hr eq_refl (in_db_nil _)).
-        - intros e0 [<-|[]]. reflexivity.
-        - intros k x. rewrite ecount_nil, P3. lia. }
-      intros db k Hd Hq. pose proof (len_none_delta _ _ _ _ db k D Hd) as L. rewrite ecount_nil, ecountm_single in L.
-      specialize (HST db k Hd Hq). rewrite wcount_cons, wmatch_sym in HST. destruct ((db =? u_db u) && beq k (u_key u)); lia.
-  - (* nothing there: registered again, on its one key, whose list is empty *)
-    split; [intros c' st' Hl; cbn [with_reg b_blk] in Hl; eapply HSK; exact Hl|].
-    cbn [with_reg b_reg]. rewrite Hk0.
-    assert (D : delta s (set_db s (u_db u) d') [] []).
-    { apply (delta_one_db s (set_db s (u_db u) d') (u_db u) d' [] [] (ci_len s CI) Hr eq_refl (in_db_nil _) (in_db_nil _)).
-      intros k x. specialize (P3 k x). rewrite ecount_nil in *. lia. }
-    intros db k Hd Hq. pose proof (len_none_delta _ _ _ _ db k D Hd) as L. rewrite !ecount_nil in L.
-    destruct ((db =? u_db u) && beq k (u_key u)) eqn:Em.
-    + (* the key of the wake-up: its list is empty *)
+  unfold renotified. destruct (reg_get (b_reg b) (db, k)) as [|w q].
+  - rewrite wcount_nil. destruct ((db2 =? db) && beq k2 k); reflexivity.
+  - rewrite wcount_cons, wcount_nil, wmatch_sym. cbn [u_db u_key]. destruct ((db2 =? db) && beq k2 k); reflexivity.
+Qed.
+Lemma wake_client_str now s b u W ex :
+  agreeW b (u :: W) -> cinv s -> BR b -> STRW s (b_reg b) (u :: W) ->
+  b_wake (snd (wake_client now s b u)) = b_wake b ++ ex ->
+  STRW (fst (wake_client now s b u)) (b_reg (snd (wake_client now s b u))) (W ++ ex).
+Proof.
+  intros HA CI HB HST.
+  destruct HA as (_ & A2 & _). destruct (A2 u (or_introl eq_refl)) as (_ & U). cbn [with_wake b_blk] in U.
+  pose proof (ci_all s CI (u_db u)) as HAd.
+  unfold wake_client. rewrite purge_noexp by (exact (proj2 HAd)). cbn [fst].
+  pose proof (on_key_pop_delta (u_left u) (get_db s (u_db u)) (u_key u) (u_db u) HAd) as Hp. cbv zeta in Hp.
+  pose proof (pop_nil_empty (u_left u) (get_db s (u_db u)) (u_key u) HAd) as Hnil.
+  pose proof (pop_nil_same (u_left u) (get_db s (u_db u)) (u_key u) HAd) as Hsame.
+  destruct (on_key (get_db s (u_db u)) (u_key u) (e_pop (u_left u))) as [r d'] eqn:Epop. cbn [fst snd] in Hp, Hnil, Hsame. destruct Hp as (P1 & P2 & P3).
+  destruct (zlookup (u_conn u) (b_blk b)) as [st|] eqn:Eb.
+  - (* the connection is still Blocked *)
+    destruct (U st eq_refl) as (U1 & U2 & U3). pose proof (HB _ _ Eb) as Hr. rewrite <- U1 in Hr.
+    assert (Fin : forall d2, (forall k', len (lst d2 k') <= len (lst (get_db s (u_db u)) k')) ->
+              len (lst d2 (u_key u)) + 1 <= len (lst (get_db s (u_db u)) (u_key u)) \/ lst d2 (u_key u) = [] ->
+              STRW (set_db s (u_db u) d2) (b_reg b) W).
+    { intros d2 Hle Hkey db k Hd Hq. specialize (HST db k Hd Hq). rewrite wcount_cons, wmatch_sym in HST.
+      rewrite (list_at_set_db s (u_db u) d2 db k CI Hr Hd).
+      destruct (db =? u_db u) eqn:E1; cbn [andb] in HST; [|cbv iota in HST; lia]. apply Z.eqb_eq in E1. subst db. specialize (Hle k).
+      rewrite list_at_lst in HST.
+      destruct (beq k (u_key u)) eqn:E2; cbv iota in HST; [|lia]. apply beq_eq in E2. subst k.
+      destruct Hkey as [Hk|Hk]; [lia|]. rewrite Hk. pose proof (wcount_nonneg (u_db u) (u_key u) W). cbn. lia. }
+    destruct r; try contradiction; cbn [fst snd].
+    + intros E. cbn [unblock emit with_blk b_wake] in E. apply app_self_nil in E. subst ex. rewrite app_nil_r.
+      cbn [unblock emit with_blk b_reg]. apply Fin.
+      * intros k'. specialize (P3 k' None). rewrite !occm_none in P3. pose proof (ecount_nonneg (u_db u, k', None) [(u_db u, u_key u, b0)]). lia.
+      * left. specialize (P3 (u_key u) None). rewrite !occm_none, ecount_cons, ecount_nil, elem_eqb_spec, Z.eqb_refl, beq_refl in P3. cbn [mbeq andb] in P3. lia.
+    + destruct (recheck (bl_left st) d' (bl_keys st)) as [[[k v]|] d''] eqn:Er; cbn [fst snd]; intros E.
+      * cbn [unblock emit with_blk b_wake] in E. apply app_self_nil in E. subst ex. rewrite app_nil_r.
+        destruct (recheck_delta (bl_left st) (u_db u) _ _ _ _ P1 Er) as (Q1 & Q3).
+        cbn [unblock emit with_blk b_reg]. apply Fin.
+        -- intros k'. specialize (Q3 k' None). rewrite !occm_none in Q3. pose proof (ecount_nonneg (u_db u, k', None) [(u_db u, k, v)]).
+           rewrite <- (Hsame I k'). lia.
+        -- right. apply len_zero_nil. specialize (Q3 (u_key u) None). rewrite !occm_none in Q3.
+           pose proof (ecount_nonneg (u_db u, u_key u, None) [(u_db u, k, v)]). rewrite (Hnil I) in Q3. unfold len in *. cbn [length] in *. lia.
+      * cbn [with_reg b_wake] in E. apply app_self_nil in E. subst ex. rewrite app_nil_r.
+        destruct (recheck_none (bl_left st) _ _ _ P1 Er) as (N1 & N2).
+        cbn [with_reg b_reg]. intros db k Hd Hq.
+        rewrite (list_at_set_db s (u_db u) d'' db k CI Hr Hd).
+        destruct ((db =? u_db u) && bmem k (bl_keys st)) eqn:Em.
+        -- apply andb_true_iff in Em. destruct Em as [E1 E2]. rewrite E1, (N2 k E2). pose proof (wcount_nonneg db k W). cbn. lia.
+        -- destruct (reg_get_reregister (u_db u) (u_conn u) (bl_left st) (bl_dl st) (u_at u) (bl_keys st) (b_reg b) (db, k)) as (_ & _ & R3).
+           cbn [fst snd] in R3. destruct R3 as [[R3 R4]|R3].
+           { subst db. rewrite Z.eqb_refl, R4 in Em. discriminate. }
+           rewrite R3 in Hq. specialize (HST db k Hd Hq). rewrite wcount_cons, wmatch_sym in HST.
+           assert (Hnm : (db =? u_db u) && beq k (u_key u) = false).
+           { destruct (db =? u_db u) eqn:E1; [|reflexivity]. cbn [andb] in *. destruct (beq k (u_key u)) eqn:E2; [|reflexivity].
+             apply beq_eq in E2. subst k. congruence. }
+           rewrite Hnm in HST. rewrite list_at_lst in HST.
+           destruct (db =? u_db u) eqn:E1; [|rewrite list_at_lst; lia]. apply Z.eqb_eq in E1. subst db.
+           rewrite N1, (Hsame I k). lia.
+  - (* the client has gone *)
+    destruct r; try contradiction; cbn [fst snd]; intros E.
+    + (* the element goes back: the lists are as before, the next waiter of the key is notified *)
+      rewrite BlockingFacts.notify_key_ready_wake in E. apply app_inv_head in E. subst ex.
+      destruct (pop_push_back _ _ _ _ _ HAd Epop) as (B1 & B2).
+      assert (D : delta s (set_db s (u_db u) (snd (on_key d' (u_key u) (e_push (u_left u) [b0])))) [] []).
+      { eapply delta_same_counts; [reflexivity|]. intros k x. rewrite B2. reflexivity. }
+      intros db k Hd Hq. pose proof (len_none_delta _ _ _ _ db k D Hd) as L. rewrite !ecount_nil in L.
+      assert (Hq0 : reg_get (b_reg b) (db, k) <> []) by (eapply nonempty_sub; [|exact Hq]; intros w; apply notify_key_ready_sub).
+      specialize (HST db k Hd Hq0). rewrite wcount_cons, wmatch_sym in HST. rewrite wcount_app, wcount_renotified.
+      destruct ((db =? u_db u) && beq k (u_key u)) eqn:Em; [|lia].
       apply andb_true_iff in Em. destruct Em as [E1 E2]. apply Z.eqb_eq in E1. apply beq_eq in E2. subst db k.
-      rewrite list_at_lst. destruct (get_db_after_set s (set_db s (u_db u) d') (u_db u) d' (ci_len s CI) Hr eq_refl) as (G1 & _).
-      rewrite G1, (Hnil I). pose proof (wcount_nonneg (u_db u) (u_key u) W). cbn. lia.
-    + (* another key: its queue is as before *)
-      destruct (reg_get_register (u_db u) (u_conn u) (bl_left st) (bl_dl st) [k0] (b_reg b) (db, k)) as [n [Hn Hiff]].
-      assert (n = O).
-      { destruct n; [reflexivity|]. exfalso. assert (Hnz : S n <> O) by discriminate. apply Hiff in Hnz. cbn [fst snd bmem] in Hnz.
-        destruct Hnz as [Hz Hkk]. rewrite orb_false_r in Hkk. apply beq_eq in Hkk. subst db k k0. rewrite Z.eqb_refl, beq_refl in Em. discriminate. }
-      subst n. rewrite Hn in Hq. cbn [repeat] in Hq. rewrite app_nil_r in Hq.
-      specialize (HST db k Hd Hq). rewrite wcount_cons, wmatch_sym, Em in HST. lia.
+      destruct (reg_get (b_reg b) (u_db u, u_key u)); [congruence|lia].
+    + (* nothing there *)
+      apply app_self_nil in E. subst ex. rewrite app_nil_r.
+      assert (D : delta s (set_db s (u_db u) d') [] []).
+      { eapply delta_same_counts; [reflexivity|]. intros k x. specialize (P3 k x). rewrite ecount_nil in P3. unfold get_db in P3. lia. }
+      intros db k Hd Hq. pose proof (len_none_delta _ _ _ _ db k D Hd) as L. rewrite !ecount_nil in L.
+      specialize (HST db k Hd Hq). rewrite wcount_cons, wmatch_sym in HST.
+      destruct ((db =? u_db u) && beq k (u_key u)) eqn:Em; [|lia].
+      apply andb_true_iff in Em. destruct Em as [E1 E2]. apply Z.eqb_eq in E1. apply beq_eq in E2. subst db k.
+      rewrite (list_at_lst s (u_db u)) in L. pose proof (Hsame I (u_key u)) as Hs. rewrite (Hnil I) in Hs. unfold len in Hs at 1. cbn [length] in Hs.
+      pose proof (wcount_nonneg (u_db u) (u_key u) W). lia.
 Qed.
 
-Lemma wake_fold_str : forall l s b,
-  agreeW b (l ++ b_wake b) -> b_crashed b = false -> cinv s -> BR b -> SK b -> STRW s (b_reg b) (l ++ b_wake b) ->
-  SK (snd (fold_left wake_step l (s, b))) /\
-  STRW (fst (fold_left wake_step l (s, b))) (b_reg (snd (fold_left wake_step l (s, b)))) (b_wake (snd (fold_left wake_step l (s, b)))).
+Lemma wake_fold_str now : forall l s b,
+  agreeW b (l ++ b_wake b) -> b_crashed b = false -> cinv s -> BR b ->
+  STRW s (b_reg b) (l ++ b_wake b) ->
+  STRW (fst (fold_left (wake_step now) l (s, b))) (b_reg (snd (fold_left (wake_step now) l (s, b)))) (b_wake (snd (fold_left (wake_step now) l (s, b)))).
 Proof.
-  induction l as [|u l IH]; intros s b HA Hc CI HB HSK HST; cbn [fold_left fst snd]; [split; assumption|].
+  induction l as [|u l IH]; intros s b HA Hc CI HB HST; cbn [fold_left fst snd]; [exact HST|].
   rewrite wake_step_eq, Hc. cbn [app] in HA, HST.
-  pose proof (agree_wake_client s b u (l ++ b_wake b) HA) as Hnext. rewrite <- (wake_client_wake s b u) in Hnext.
-  destruct (wake_client_cons s b u (l ++ b_wake b) HA CI HB) as (W1 & W2 & W3).
-  destruct (wake_client_str s b u (l ++ b_wake b) HA CI HB HSK HST) as (S1 & S2).
-  rewrite <- (wake_client_wake s b u) in S2.
-  destruct (wake_client s b u) as [s1 b1]. cbn [fst snd] in *.
-  rewrite Hc in W1. destruct Hnext as [Hx|Hnext]; [congruence|].
+  pose proof (agree_wake_next now s b u l HA) as Hnext.
+  destruct (wake_client_cons now s b u (l ++ b_wake b) HA CI HB) as (W1 & W2 & W3).
+  destruct (wake_client_wake now s b u) as (ex & E & _).
+  pose proof (wake_client_str now s b u (l ++ b_wake b) ex HA CI HB HST E) as S2.
+  rewrite <- app_assoc, <- E in S2.
+  destruct (wake_client now s b u) as [s1 b1]. cbn [fst snd] in *.
+  rewrite Hc in W1.
   assert (HB1 : BR b1).
-  { destruct W3 as [(_ & O2 & _)|(st & v & _ & _ & O4 & _)]; intros c st0 Hl.
+  { destruct W3 as [(_ & O2 & _)|(st & k & v & _ & _ & O4 & _)]; intros c st0 Hl.
     - rewrite O2 in Hl. eapply HB; exact Hl.
     - rewrite O4 in Hl. apply zlookup_zremove_some in Hl. eapply HB; exact Hl. }
   apply IH; assumption.
 Qed.
 
-(** ================= the invariant over all single-key list histories ================= *)
+(** ================= the invariant over all list-command histories ================= *)
 Definition sinv (st : sys) : Prop :=
-  (exists P R, reach_g st P R) /\ SK (snd st) /\ STRW (fst st) (b_reg (snd st)) (b_wake (snd st)).
+  (exists P R, reach_g st P R) /\ STRW (fst st) (b_reg (snd st)) (b_wake (snd st)).
 
 Lemma STRW_mono s s' r r' W :
   STRW s r W -> (forall db k, 0 <= db -> len (list_at s' db k) <= len (list_at s db k)) ->
@@ -444,71 +537,62 @@ Proof.
   assert (reg_get r (db, k) <> []) by (eapply nonempty_sub; [apply Hr|exact Hq]). specialize (H db k Hd H0). lia.
 Qed.
 
-Lemma ok_sk_cons st e : ok_sk st e = true -> ok_cons st e = true.
-Proof. unfold ok_sk. intros H. apply andb_true_iff in H. tauto. Qed.
-
-Lemma sinv_step st e : sinv st -> ok_sk st e = true -> sinv (step st e).
+Lemma sinv_step st e : sinv st -> ok_cons st e = true -> sinv (step st e).
 Proof.
-  intros ((P & R & HG) & HSK & HST) Hok. pose proof (ok_sk_cons _ _ Hok) as Hokc.
+  intros ((P & R & HG) & HST) Hokc.
   split; [exists (P ++ pushed_in st e), (R ++ returned_in st e); apply rg_step; assumption|].
   destruct (reach_g_ginv _ _ _ HG) as (HR & Hc & CI & HB & _).
   pose proof (ok_cons_ok _ _ Hokc) as Hok1.
   destruct st as [s b]. cbn [fst snd] in *.
-  destruct (reach_inv None _ HR) as [Hi|(HA & H0)]; [cbn [snd] in Hi; congruence|]. cbn [fst snd] in *.
-  unfold ok_sk in Hok. apply andb_true_iff in Hok. destruct Hok as [_ Hsk].
+  destruct (reach_inv None _ HR) as [Hi|(HA & H0 & HO & HD)]; [cbn [snd] in Hi; congruence|]. cbn [fst snd] in *.
   unfold ok_cons in Hokc. apply andb_true_iff in Hokc. destruct Hokc as [_ Hlf].
   cbn [step]. rewrite Hc.
-  destruct e as [now c f oms| |now|c|c].
+  destruct e as [now c f oms|now|now|c|c|].
   - (* a request *)
     cbn [ok] in Hok1. destruct (zlookup c (s_conns s)) as [cn|] eqn:Hcn; [|discriminate].
     apply andb_true_iff in Hok1. destruct Hok1 as [Hnb Hq].
     apply negb_true_iff in Hnb. apply is_blocked_false in Hnb.
+    pose proof (live_no_wake s b c cn HO Hcn Hnb) as Hnw.
     unfold frame_step. destruct (bprocess_frame now s b c f None oms) as [[rep s'] b1] eqn:E. cbn [fst snd].
-    destruct (frame_strand _ _ _ _ _ _ _ _ _ _ CI HA H0 Hcn Hnb Hlf Hsk HSK HST E) as [S1 S2].
-    destruct rep; split; assumption.
+    pose proof (frame_strand _ _ _ _ _ _ _ _ _ _ CI HA H0 Hcn Hnb Hnw Hlf HST E) as S2.
+    destruct rep; exact S2.
   - (* wake-ups *)
     assert (HA' : agreeW (with_wake b (skipn 32 (b_wake b))) (firstn 32 (b_wake b) ++ b_wake (with_wake b (skipn 32 (b_wake b))))).
     { cbn [with_wake b_wake]. unfold agreeW. rewrite firstn_skipn. apply agreeW_self in HA. unfold agreeW in HA. destruct b; exact HA. }
-    unfold process_wakeups.
-    apply (wake_fold_str (firstn 32 (b_wake b)) s (with_wake b (skipn 32 (b_wake b))) HA' Hc CI HB HSK).
-    cbn [with_wake b_reg b_wake]. rewrite firstn_skipn. exact HST.
+    assert (HST1 : STRW s (b_reg (with_wake b (skipn 32 (b_wake b)))) (firstn 32 (b_wake b) ++ b_wake (with_wake b (skipn 32 (b_wake b))))).
+    { cbn [with_wake b_reg b_wake]. rewrite firstn_skipn. exact HST. }
+    exact (wake_fold_str now (firstn 32 (b_wake b)) s (with_wake b (skipn 32 (b_wake b))) HA' Hc CI HB HST1).
   - (* timeouts: waiters leave, nothing else *)
     cbn [fst snd]. unfold process_timeouts. destruct (expire_reg now (b_reg b)) as [ex r'] eqn:Ee.
-    destruct (timeout_fold ex (with_reg b r')) as (T1 & T2 & _ & T4). cbn [with_reg b_reg b_wake b_blk] in T1, T2, T4.
-    split.
-    + intros c' st' Hl. rewrite T4 in Hl. destruct (existsb _ ex); [discriminate|]. eapply HSK; exact Hl.
-    + rewrite T1, T2. eapply STRW_mono; [exact HST|intros; lia|].
-      intros rk w Hw. assert (r' = snd (expire_reg now (b_reg b))) by (rewrite Ee; reflexivity). subst r'.
-      rewrite reg_get_expire in Hw. eapply in_filter_sub; exact Hw.
+    destruct (timeout_fold ex (with_reg b r')) as (T1 & T2 & _). cbn [with_reg b_reg b_wake] in T1, T2.
+    rewrite T1, T2. eapply STRW_mono; [exact HST|intros; lia|].
+    intros rk w Hw. assert (r' = snd (expire_reg now (b_reg b))) by (rewrite Ee; reflexivity). subst r'.
+    rewrite reg_get_expire in Hw. eapply in_filter_sub; exact Hw.
   - (* connect *)
-    cbn [fst snd]. split; [exact HSK|]. eapply STRW_mono; [exact HST|intros; apply Z.le_refl|auto].
-  - (* disconnect *)
-    cbn [fst snd]. destruct (is_blocked b c); cbn [with_dead with_reg b_blk b_reg b_wake].
-    + split; [exact HSK|]. eapply STRW_mono; [exact HST|intros; apply Z.le_refl|auto].
-    + split; [exact HSK|]. eapply STRW_mono; [exact HST|intros; apply Z.le_refl|].
-      intros rk w Hw. rewrite reg_get_unregister_all in Hw. eapply in_filter_sub; exact Hw.
+    cbn [fst snd]. eapply STRW_mono; [exact HST|intros; apply Z.le_refl|auto].
+  - (* a client goes away, blocked or not *)
+    cbn [fst snd with_dead b_wake b_reg]. eapply STRW_mono; [exact HST|intros; apply Z.le_refl|auto].
+  - (* the server notices the clients that went away: waiters leave *)
+    cbn [fst snd]. unfold reap_dead.
+    destruct (drop_fold (filter (noticed b) (b_dead b)) (with_dead b (filter (fun c => negb (noticed b c)) (b_dead b)))) as (_ & D2 & _).
+    cbn [with_dead b_wake] in D2. rewrite D2. eapply STRW_mono; [exact HST|intros; apply Z.le_refl|].
+    intros rk w Hw. exact (drop_fold_reg _ _ _ _ Hw).
 Qed.
 
-Theorem reach_sk_sinv st : reach_sk st -> sinv st.
+Theorem reach_g_sinv st P R : reach_g st P R -> sinv st.
 Proof.
   induction 1.
-  - split; [exists [], []; constructor|]. split; [intros c st H; discriminate|]. intros db k _ Hq. cbn in Hq. congruence.
+  - split; [exists [], []; constructor|]. intros db k _ Hq. cbn in Hq. congruence.
   - apply sinv_step; assumption.
 Qed.
 
 (** a key with a waiter holds at most as many elements as wake-ups are under way for it *)
-Theorem no_stranding st : reach_sk st -> no_strand st.
-Proof. intros H. destruct (reach_sk_sinv st H) as (_ & _ & HS). exact HS. Qed.
+Theorem no_stranding st P R : reach_g st P R -> no_strand st.
+Proof. intros H. exact (proj2 (reach_g_sinv st P R H)). Qed.
 (** once the wake-up queue has drained, nobody is blocked on a key that holds an element *)
-Theorem no_stranding_drained st : reach_sk st -> b_wake (snd st) = [] ->
+Theorem no_stranding_drained st P R : reach_g st P R -> b_wake (snd st) = [] ->
   forall db k, 0 <= db -> reg_get (b_reg (snd st)) (db, k) <> [] -> list_at (fst st) db k = [].
 Proof.
-  intros H Hw db k Hd Hq. pose proof (no_stranding st H db k Hd Hq) as Hl. rewrite Hw in Hl. cbn in Hl.
+  intros H Hw db k Hd Hq. pose proof (no_stranding st P R H db k Hd Hq) as Hl. rewrite Hw in Hl. cbn in Hl.
   destruct (list_at (fst st) db k); [reflexivity|]. unfold len in Hl. cbn [length] in Hl. lia.
-Qed.
-
-Lemma run_reach_sk : forall evs st, reach_sk st -> all_ok_sk st evs = true -> reach_sk (run st evs).
-Proof.
-  induction evs as [|e evs IH]; intros st H Hok; cbn [run fold_left all_ok_sk] in *; [exact H|].
-  apply andb_true_iff in Hok. destruct Hok as [H1 H2]. apply IH; [apply rsk_step; assumption|exact H2].
 Qed.
